@@ -17,7 +17,7 @@ RULE = (
     "Histories over 2-5 vertices (0-2 of them universes that are also linkable vertices) of: edge constructors "
     "(6 link classes, ends from pool+None), v1=/v2= (only on links that currently list two ends - model "
     "precondition; skipped ops are counted), link_directed/link_undirected/link_from_to with dontdup on/off, "
-    "unlink(a,b,destroy) incl. a is b, the four universe membership calls, Vertex(universes=[..with repeats]), "
+    "unlink(a,b,destroy) incl. a is b, the four universe membership calls, bulk creation of 7-33 parallel links / 7-40 extra universe members at once (size thresholds), toggles of Vertex.NEIGHBOR_CACHING in between, Vertex(universes=[..with repeats]), "
     "Universe(vertices=[..with repeats]) and ill-typed edge constructor arguments (int/str/Link/object as an "
     "end).  After EVERY call the full observable snapshot (each vertex's ordered links and universes, each "
     "link's ordered ends and v1/v2, each universe's ordered members) must equal the reference model's, and the "
@@ -44,7 +44,7 @@ TECHNIQUE = "model-based stateful PBT (Hypothesis op-list histories vs. referenc
 
 OPS_W = (
     ["edge"] * 6 + ["v1"] * 4 + ["v2"] * 4 + ["link"] * 4 + ["unlink"] * 3
-    + ["ua", "ur", "va", "vr"] + ["newv_u", "newu", "edge_bad"]
+    + ["ua", "ur", "va", "vr"] + ["newv_u", "newu", "edge_bad"] + ["flag", "bulk", "bulk_u"]
 )
 
 
@@ -96,6 +96,14 @@ def check_case(case):
         if r is None:
             continue
         name = r[0]
+        if name == "flag":
+            from edgegraph.structure import Vertex
+
+            Vertex.NEIGHBOR_CACHING = bool(r[1] & 1)
+            classes.add("caching-flag-toggled")
+            continue
+        if name in ("bulk", "bulk_u"):
+            classes.add("bulk:" + name)
         if name in ("v1", "v2") and len(m.ends[r[1]]) != 2:
             skipped += 1
             classes.add("skipped:end-assignment-on-link-without-two-ends")
